@@ -116,7 +116,7 @@ def rule_replycount(ctx, R):
         if not (lens and same and frompub):
             R.finding(b.fn, "reply:not-number-of-deliveries", "PUBLISH's integer reply is not the length of the receiver list it delivers to", b.loc(i))
     # every receiver gets a send
-    sends = [i for i, t in b.calls() if any("send_frame" in callee(tt) for c in t["clos"] for _, tt in ctx.prog.bodies[c].calls())]
+    sends = [i for i, t in b.calls() if any(re.search(r"Connection::(send_frame|send_raw|queue_frame|write_frame)$", callee(tt)) for c in t["clos"] for _, tt in ctx.prog.bodies[c].calls())]
     R.inst(b.fn, "delivery", {"send_sites": len(sends)})
     if not sends:
         R.finding(b.fn, "delivery:none", "PUBLISH never sends the message to the receivers", b.loc())
@@ -227,3 +227,55 @@ def rule_record(ctx, R):
                 R.finding(fn, "record-removal:not-under-both-empty",
                           "%s drops the connection's subscription record (line %d) on a path where its channel set and its pattern set have not both been found empty: a client holding only the other kind of subscription loses its record while it is still listed in the global map" % (fn.split("::")[-1], b.bb_line(i)), b.loc(i))
     R.floor("subscription_record_removals", n)
+
+
+
+def rule_label(ctx, R):
+    """a pmessage carries the pattern of the subscription it is delivered for: in handle_publish
+    every call of format_pmessage (a) lies inside the loop over the receiver list, (b) takes its
+    pattern from that loop's current item, and (c) its result is not kept across iterations (no
+    path from the call to a later iteration's send that bypasses a fresh call)"""
+    b = ctx.prog.need(SERVER + "handle_publish")
+    calls = [i for i, t in b.calls() if callee(t) == "pubsub::format_pmessage"]
+    R.floor("format_pmessage_calls", len(calls))
+    lps = cfg.loops(b)
+    recv_loops = []
+    for h, body in lps.items():
+        for x in body:
+            t = b.term(x)
+            if t["k"] == "call" and re.search(r"Iterator>::next$", t["f"] or "") and "(u64, std::option::Option<std::vec::Vec<u8>>)" in (t["f"] or "") + b.locals[t["d"]["l"]]:
+                recv_loops.append((h, body, x))
+    sends = [i for i, t in b.calls() if any(re.search(r"Connection::(send_frame|send_raw|queue_frame|write_frame)$", callee(tt)) for c in t["clos"] for _, tt in ctx.prog.bodies[c].calls())]
+    for k, i in enumerate(calls):
+        t = b.term(i)
+        inloop = [(h, body, nx) for h, body, nx in recv_loops if i in body]
+        from_item = False
+        if inloop and t["a"] and not op_is_const(t["a"][0]):
+            P = prov.operand_origins(b, t["a"][0])
+            from_item = any(r[0] == "call" and re.search(r"Iterator>::next$", r[1]) and r[2] == nx for _, _, nx in inloop for r in P.roots) or P.has_call(r"Iterator>::next$")
+        # (c) each send in the loop is reached in the same iteration only through ... : a send
+        # reachable from the loop head without passing format_pmessage on the pattern edge would
+        # reuse an older frame.  Approximation that is exact for this shape: the call must not be
+        # control-dependent on a test of an Option cache (is_none / discriminant of a local
+        # Option<Vec<u8>> or Option<RespFrame> that lives across iterations)
+        cached = False
+        for y, by in enumerate(b.bbs):
+            ty = by["t"]
+            if ty["k"] != "switch" or not inloop or y not in inloop[0][1]:
+                continue
+            dl = op_local(ty["d"])
+            for st in by["s"]:
+                if st["k"] == "=" and st["l"]["l"] == dl and st["r"]["k"] == "discr":
+                    ty_ = b.locals[st["r"]["p"]["l"]]
+                    if re.match(r"^std::option::Option<(std::vec::Vec<u8>|protocol::resp::RespFrame|std::sync::Arc<.*>)>$", ty_) and not st["r"]["p"]["p"]:
+                        # defined outside the loop?
+                        defs_in = [db for kind, db, d in prov.build_defs(b).get(st["r"]["p"]["l"], ()) if db in inloop[0][1]]
+                        defs_out = [db for kind, db, d in prov.build_defs(b).get(st["r"]["p"]["l"], ()) if db not in inloop[0][1]]
+                        if defs_out and any(i in cfg.edge_dom_set(b, y, tgt) for tgt in set(b.succs(y))):
+                            cached = True
+        ok = bool(inloop) and from_item and not cached
+        R.inst(b.fn, "pmessage-label#%d" % k, {"inside_receiver_loop": bool(inloop), "pattern_from_current_receiver": from_item, "built_under_a_cross_iteration_cache_test": cached})
+        if not ok:
+            R.finding(b.fn, "pmessage-label:not-per-receiver",
+                      "the pmessage frame is not built for each pattern receiver from that receiver's own pattern (%s): a client subscribed to another matching pattern receives the message labelled with the wrong pattern" % (
+                          "built once and cached across receivers" if cached else "outside the receiver loop" if not inloop else "pattern does not come from the current receiver"), b.loc(i))
